@@ -49,10 +49,12 @@ def generate(tier, rng):
 
 def api_cases(tier, rng):
     out = []
-    for rep in range(3 if tier == "quick" else 10):
+    for rep in range(6 if tier == "quick" else 12):
         for call in API_CALLS:
-            for layout in ("C", "F"):
-                out.append(dict(stream="api", coq=False, call=call, layout=layout, seed=rng.randrange(10 ** 6)))
+            for li, layout in enumerate(("C", "F")):
+                # seed mod 12 runs through 0..11 over the repetitions: the variants chosen from it (which dimension is split, which
+                # stock class is built, whose Dimension objects the inputs use) all occur with both layouts
+                out.append(dict(stream="api", coq=False, call=call, layout=layout, seed=rng.randrange(10 ** 5) * 12 + (rep * 2 + li) % 12))
     return out
 
 
@@ -63,7 +65,7 @@ def _snap(x):
     if isinstance(x, (list, tuple)):
         return [_snap(y) for y in x]
     if isinstance(x, fd.FlodymArray):
-        return ("arr", [(d.letter, d.name, list(d.items)) for d in x.dims], x.values.shape, x.values.copy())
+        return ("arr", [(d.letter, d.name, list(d.items), repr(d.dtype)) for d in x.dims], x.values.shape, x.values.copy())
     if isinstance(x, pd.DataFrame):
         return ("df", x.copy(deep=True))
     if isinstance(x, np.ndarray):
@@ -182,19 +184,32 @@ def run_api(case):
     elif call == "split":
         a = arr(fd.DimensionSet(dim_list=[t, g, e]))
         inputs = [a]
-        f = lambda: a.split("g")
+        # along the first, a middle or the last dimension, named by letter or by name
+        along = [t, g, e][case["seed"] % 3]
+        f = lambda: a.split(along.letter if (case["seed"] // 3) % 2 else along.name)
         outputs_of = lambda res: list(res.values())
     elif call == "stock_from_arrays":
-        inflow = arr(ds, fd.StockArray)
-        mean = arr(fd.DimensionSet(dim_list=[g]), fd.Parameter, 2, 6)
-        inputs = [inflow, mean]
+        # the arrays handed over may have been declared over the caller's own Dimension objects (same letters and items, other names,
+        # no declared type): they are the caller's, and stay as they are
+        own = fd.DimensionSet(dim_list=[fd.Dimension(name="Year", letter="t", items=list(t.items)),
+                                        fd.Dimension(name="Product", letter="g", items=list(g.items))])
+        ids = own if (case["seed"] // 6) % 2 else ds
+        inflow = arr(ids, fd.StockArray)
+        outflow = arr(ids, fd.StockArray, 0, 3)
+        mean = arr(fd.DimensionSet(dim_list=[ids["g"]]), fd.Parameter, 2, 6)
+        which = (case["seed"] // 2) % 3
+        inputs = [inflow, mean] if which != 1 else [inflow, outflow]
 
         def f():
-            lm = fd.NormalLifetime(dims=ds, time_letter="t", mean=mean, std=2.0)
-            st = fd.InflowDrivenDSM(dims=ds, inflow=inflow, lifetime_model=lm, name="s")
+            if which == 1:
+                st = fd.SimpleFlowDrivenStock(dims=ds, inflow=inflow, outflow=outflow, name="s")
+            else:
+                lm = fd.NormalLifetime(dims=ds, time_letter="t", mean=mean, std=2.0)
+                st = (fd.InflowDrivenDSM(dims=ds, inflow=inflow, lifetime_model=lm, name="s") if which == 0 else
+                      fd.StockDrivenDSM(dims=ds, stock=inflow, lifetime_model=lm, name="s"))
             st.compute()
             return st
-        outputs_of = lambda res: [res.stock, res.outflow, res.lifetime_model.mean, res.lifetime_model.std]
+        outputs_of = lambda res: [res.stock, res.outflow] + ([res.lifetime_model.mean, res.lifetime_model.std] if which != 1 else [])
     elif call == "stock_stack":
         def mk():
             st = fd.SimpleFlowDrivenStock(dims=ds, inflow=arr(ds, fd.StockArray), outflow=arr(ds, fd.StockArray, 0, 3), name="s")
